@@ -40,7 +40,7 @@ ASSUMPTIONS = ['the NumPy call on the per-point operand values is the reference 
                'numpy.linalg.norm gets axis None / int / 2-tuple only',
                'values are drawn from fixed tables of exactly representable numbers kept inside the domain of each function (no division by zero, no NaN, no branch cuts)',
                'float comparison rtol=1e-9, atol=1e-11; bool/int exact']
-BUDGET_S = {'quick': 900, 'thorough': 3300}
+BUDGET_S = {'quick': 2400, 'thorough': 6000}
 
 PER_SHARD = {'quick': 1500, 'thorough': 2500}
 
